@@ -60,9 +60,17 @@ def tsan_runs(res, tier, known, modes=(0, 1, 2)):
     nseeds = 4 if tier == "quick" else 24
     iters = 2500 if tier == "quick" else 20000
     reports, runs = [], 0
-    for mode in modes:
+    # guard on + stripe limit 4: doublings defer migration (mode 3), and mode 0 grows through lazily migrated tables
+    ok2, exe2, log2 = C.build_harness("k4-tsan-lazy", "k4_tsan.cc", ["-O1", "-g", "-fsanitize=thread", "-DLIBCUCKOO_VERIF_MAX_NUM_LOCKS=4"],
+                                      compiler="clang++-14")
+    if not ok2:
+        res.add_broken("K4 (TSan, deferred migration) harness does not compile against /repo", log2)
+    plan = [(exe, m) for m in modes]
+    if ok2 and 0 in modes:
+        plan += [(exe2, 3), (exe2, 0)]
+    for ex_, mode in plan:
         for sd in range(nseeds):
-            rc, out, dt = C.sh([exe, str(C.seed() * 100 + sd), str(iters), str(mode)], timeout=300, env=env)
+            rc, out, dt = C.sh([ex_, str(C.seed() * 100 + sd), str(iters), str(mode)], timeout=300, env=env)
             runs += 1
             if "done bad=0" not in out:
                 res.add_failing({"what": "K4 free-running run failed (crash, hang or a reader saw a torn/wrong value)", "mode": mode,
@@ -91,7 +99,7 @@ def tsan_runs(res, tier, known, modes=(0, 1, 2)):
     res.cov["tsan_reports_unknown"] = len(unknown)
 
 
-def run(pid, tier, programs=None):
+def run(pid, tier, programs=None, phases=()):
     res = C.Result(pid, tier)
     known = [k for k in C.load_known().get("findings", []) if k.get("property") == pid]
     with C.Lock():
@@ -99,6 +107,8 @@ def run(pid, tier, programs=None):
                                       extra_props={"C01": ["C01Conc"], "C04": ["C04Live"]}.get(pid, []))
     if pid == "C03":
         tsan_runs(res, tier, known)
+    for ph in phases:
+        ph(res, tier)
     out = k3.explore(tier, C.seed(), programs=programs)
     for b in out["build_errors"]:
         res.add_broken("K3 harness does not compile against /repo (%s)" % b["config"], b["log"])
@@ -155,6 +165,9 @@ def replay(pid, path):
     print(json.dumps(d.get("no_longer_checks", []), indent=1)[:2000])
     bad = 0
     for f in d.get("failing_inputs", []):
+        if "cfg_line" in f and "prefix" in f:
+            import k2check
+            return k2check.replay(pid, path)
         if "schedule" not in f:
             continue
         S, M = [int(x.split("=")[1]) for x in f["config"].split()]
